@@ -49,9 +49,11 @@ namespace rkcommon {
 
      private:
       // declaration before taskImpl: ensure initialization before task finishes
+      // (the task assigns retValue and sets jobFinished, possibly before the
+      // constructor of taskImpl returns)
       std::atomic<bool> jobFinished{false};
-      detail::AsyncTaskImpl<std::function<void()>> taskImpl;
       T retValue;
+      detail::AsyncTaskImpl<std::function<void()>> taskImpl;
     };
 
   }  // namespace tasking
